@@ -27,6 +27,12 @@ type RaceCase struct {
 	// only in-flight handler is finishing, with no further publish.
 	Mode     string `json:"mode,omitempty"`
 	WaitSpin int    `json:"wait_spin,omitempty"`
+	// Mode "trickle": NH handlers (Async, with Sequential if Seq) receive
+	// Burst events per round, published with small varying gaps so that
+	// publishes keep landing just as a handler's queue runs empty; then Wait.
+	NH    int  `json:"nh,omitempty"`
+	Seq   bool `json:"seq,omitempty"`
+	Burst int  `json:"burst,omitempty"`
 }
 
 type rev struct {
@@ -89,13 +95,44 @@ func runRace(c *RaceCase, finishedP, expectedP, roundP *atomic.Int64) *vkit.Outc
 		}
 		finished.Add(1)
 	}
-	if c.Ctx {
-		eventbus.SubscribeContext(bus, func(_ context.Context, e rev) { body(e) }, eventbus.Async())
-	} else {
-		eventbus.Subscribe(bus, body, eventbus.Async())
+	nh := 1
+	if c.Mode == "trickle" && c.NH > 1 {
+		nh = c.NH
+	}
+	for i := 0; i < nh; i++ {
+		so := []eventbus.SubscribeOption{eventbus.Async()}
+		if c.Seq {
+			so = append(so, eventbus.Sequential())
+		}
+		if c.Ctx {
+			eventbus.SubscribeContext(bus, func(_ context.Context, e rev) { body(e) }, so...)
+		} else {
+			eventbus.Subscribe(bus, func(e rev) { body(e) }, so...)
+		}
 	}
 	expected := int64(0)
 	for r := 0; r < c.Rounds; r++ {
+		if c.Mode == "trickle" {
+			roundP.Store(int64(r))
+			acc := 0
+			for k := 0; k < c.Burst; k++ {
+				eventbus.Publish(bus, rev{Spin: -1})
+				expected += int64(nh)
+				expectedP.Store(expected)
+				for i, n := 0, (r*7+k*13+c.WaitSpin)%97; i < n; i++ {
+					acc += i
+				}
+			}
+			if acc < 0 {
+				runtime.Gosched()
+			}
+			bus.Wait()
+			if got := finished.Load(); got != expected {
+				o.Failf("", "round %d: Wait returned with %d of %d asynchronous deliveries run (%d handlers, sequential=%v, %d publishes per round)", r, got, expected, nh, c.Seq, c.Burst)
+				return o
+			}
+			continue
+		}
 		spin := 0
 		if c.SpinMax > 0 {
 			spin = (r * 37) % c.SpinMax
@@ -152,7 +189,12 @@ func runRace(c *RaceCase, finishedP, expectedP, roundP *atomic.Int64) *vkit.Outc
 	roundP.Store(int64(c.Rounds))
 	o.Nontrivial = c.Rounds >= 2
 	if o.Nontrivial {
-		if c.Mode == "free" {
+		if c.Mode == "trickle" {
+			o.Class("trickle_of_publishes_then_wait")
+			if c.Seq {
+				o.Class("trickle_to_async_sequential_handlers")
+			}
+		} else if c.Mode == "free" {
 			o.Class("publish_then_wait_with_varying_distance")
 		} else if c.Mode == "last" {
 			o.Class("wait_called_while_last_handler_finishes")
